@@ -59,12 +59,15 @@ Definition access_timing_parameter (cfg : config) (st : cstate) (at_ : Z) (rec :
   single_request cfg st (atp_make at_ rec) (atp_interpret at_) no_post now s.
 
 (* ---- CommunicationControl -------------------------------------------------------------------------- *)
-(* the communication type comes either as a CommunicationType object or as an integer (from_byte) *)
-Inductive ctarg := CtObj (subnet : Z) (normal nm : bool) | CtInt (v : Z).
+(* the communication type comes as a CommunicationType object, as an integer or as a bytes object of length 1 (from_byte:
+   struct.unpack('B', ..) refuses any other length with struct.error) *)
+Inductive ctarg := CtObj (subnet : Z) (normal nm : bool) | CtInt (v : Z) | CtBytes (b : bytes).
 Definition ct_normalize (a : ctarg) : M commtype :=
   match a with
   | CtObj sn n m => mk_commtype sn n m
   | CtInt v => _ <- validate_int v 0 255 ;; commtype_from_byte v
+  | CtBytes [v] => _ <- validate_int v 0 255 ;; commtype_from_byte v
+  | CtBytes _ => fail EStruct
   end.
 Definition cc_make (cfg : config) (ct : Z) (cty : commtype) (node : option Z) : M req :=
   _ <- validate_int ct 0 127 ;;
